@@ -367,15 +367,43 @@ fn pack_values_from_offsets_impl<K: ArrowDictionaryKeyType, V: OffsetSizeTrait>(
 
     let num_unique = unique_offsets.len() - 1;
 
-    // SAFETY: buffers are constructed directly from typed Vecs above; offsets are
-    // monotonically non-decreasing and bounded by unique_bytes.len(), and all
-    // key values are within 0..num_unique, so the invariants Arrow requires hold.
-    let value_data = unsafe {
-        arrow_data::ArrayData::builder(value_type.clone())
-            .len(num_unique)
-            .add_buffer(Buffer::from_vec(unique_offsets))
-            .add_buffer(Buffer::from_vec(unique_bytes))
-            .build_unchecked()
+    let value_data = if let ArrowType::FixedSizeBinary(size) = value_type {
+        // Fixed size binary values have a single contiguous values buffer and no offsets.
+        // Null slots are padded as empty values, give them a zeroed dictionary entry
+        let size = *size as usize;
+        let mut values = Vec::with_capacity(num_unique * size);
+        for w in unique_offsets.windows(2) {
+            let value = &unique_bytes[w[0].as_usize()..w[1].as_usize()];
+            if value.len() == size {
+                values.extend_from_slice(value);
+            } else if value.is_empty() {
+                values.resize(values.len() + size, 0);
+            } else {
+                return Err(general_err!(
+                    "encountered fixed size binary value of length {}, expected {}",
+                    value.len(),
+                    size
+                ));
+            }
+        }
+        // SAFETY: values contains exactly num_unique values of size bytes
+        unsafe {
+            arrow_data::ArrayData::builder(value_type.clone())
+                .len(num_unique)
+                .add_buffer(Buffer::from_vec(values))
+                .build_unchecked()
+        }
+    } else {
+        // SAFETY: buffers are constructed directly from typed Vecs above; offsets are
+        // monotonically non-decreasing and bounded by unique_bytes.len(), and all
+        // key values are within 0..num_unique, so the invariants Arrow requires hold.
+        unsafe {
+            arrow_data::ArrayData::builder(value_type.clone())
+                .len(num_unique)
+                .add_buffer(Buffer::from_vec(unique_offsets))
+                .add_buffer(Buffer::from_vec(unique_bytes))
+                .build_unchecked()
+        }
     };
 
     // SAFETY: keys are within 0..num_unique and value_data is valid.
